@@ -129,6 +129,7 @@ def configure(prog, rep, tag):
         c1 = has_root(st, "binop", "Mul") and has_root(st, "binop", "Div") and (has_root(st, "via", "num::wrapping_add") or has_root(st, "binop", "Add"))
         c1 = c1 and has_root(st, "field", "DcConfiguration", "sync0_period") and has_root(st, "field", "DcConfiguration", "start_delay") and (has_root(st, "await", "SubDeviceRef::register_read") or has_root(st, "call", "SubDeviceRef::register_read"))
         c1 = c1 and _same_p(b)
+        c1 = c1 and _start_shape(b, regvals["DcSyncStartTime"][0][0].args[2], d)
         p0 = regvals["DcSync0CycleTime"][0][1]
         c2 = has_root(p0, "field", "DcConfiguration", "sync0_period") and not has_root(p0, "binop")
         s1c, s1 = regvals["DcSync1CycleTime"][0]
@@ -169,6 +170,36 @@ def configure(prog, rep, tag):
                         (with1 if has1 else without).append(bi)
             okf2 = bool(with1) and all(x in dom01 for x in with1) and bool(without) and all(x not in dom01 for x in without)
     rep.ob(P, "flags-per-mode" + tag, okf2, "SYNC1_ACTIVATE is ORed in only on the Sync01 arm; the other arm uses SYNC0_ACTIVATE | CYCLIC_OP_ENABLE", loc=b.span)
+
+
+def _start_shape(b, operand, d):
+    """The value written to DcSyncStartTime is floor((t + d) / p) * p as a tree, not merely built from
+    t, d and p: rounding happens once, after the sum (rounding the terms separately can be a whole period
+    early)."""
+    pr = Prov(b, follow_all={"Duration::as_nanos", "TryFrom::try_from", "From::from"})
+    t = q.expr_tree(b, operand, prov=pr)
+
+    def is_leaf(x, *want):
+        return x[0] == "leaf" and all(any(w in str(r) for r in x[1]) for w in want)
+
+    def is_sum(x):
+        if x[0] != "Add":
+            return False
+        a, c = x[1], x[2]
+        return (is_leaf(a, "register_read") and is_leaf(c, "start_delay")) or (is_leaf(c, "register_read") and is_leaf(a, "start_delay"))
+
+    def is_p(x):
+        return is_leaf(x, "sync0_period")
+
+    ok = False
+    if t[0] == "Mul":
+        for q_, p2 in ((t[1], t[2]), (t[2], t[1])):
+            if q_[0] == "Div" and is_sum(q_[1]) and is_p(q_[2]) and is_p(p2):
+                ok = True
+    if t[0] == "Sub" and is_sum(t[1]) and t[2][0] == "Rem" and t[2][1] == t[1] and is_p(t[2][2]):
+        ok = True
+    d["start-tree"] = q.tree_str(t)
+    return ok
 
 
 def _same_p(b):
